@@ -108,7 +108,15 @@ def main(argv=None):
         if args.replay:
             with open(args.replay) as f:
                 rec = json.load(f)
-            jobs = [{"name": "replay", "tier": tier, "seed": rec.get("seed", seed), "replay": rec.get("replay", rec), "spec": None}]
+            rp_ = rec.get("replay", rec)
+            if isinstance(rp_, dict) and rp_.get("kind") in ("stall", "rerun_shard"):
+                # witnesses that are a whole shard (a stall, an exception escaping from the code under test): run that shard again
+                seed = rec.get("seed", seed)
+                tier = rec.get("tier", tier)
+                base = rp_["shard"][:-2] if rp_["shard"].endswith("_O") else rp_["shard"]
+                jobs = [dict(j, tier=tier, seed=seed, optimize=rp_["shard"].endswith("_O")) for j in mod.plan(tier, seed) if j["name"] == base]
+            else:
+                jobs = [{"name": "replay", "tier": tier, "seed": rec.get("seed", seed), "replay": rp_, "spec": None}]
         else:
             jobs = []
             for j in mod.plan(tier, seed):
